@@ -290,16 +290,27 @@ class CSSNamespaceRule(cssrule.CSSRule):
             else:
                 prefix = self._tokenvalue(prefixtoken)
         # update seq
+        oldseq, oldprefix = list(self._seq), self._prefix
         for i, x in enumerate(self._seq):
-            if x == self._prefix:
+            if 'prefix' == x.type:
                 self._seq[i] = (prefix, 'prefix', None, None)
                 break
         else:
             # put prefix at the beginning!
-            self._seq[0] = (prefix, 'prefix', None, None)
+            self._seq.insert(0, prefix, 'prefix')
 
         # set new prefix
         self._prefix = prefix
+
+        if self.parentStyleSheet:
+            try:
+                # the prefix may override another rule now
+                self.parentStyleSheet._cleanNamespaces()
+            except xml.dom.DOMException:
+                # the overridden namespace is in use
+                self._seq._seq[:] = oldseq
+                self._prefix = oldprefix
+                raise
 
     prefix = property(
         lambda self: self._prefix,
